@@ -11,6 +11,11 @@ CHECKS = {
          "seeded search over arrival orders of 0-3 external + 0-2 internal extensions and the runtime with one party held back; decides the barrier by comparing step stamps of Exec requests, accepted registrations, first polls and first deliveries; evidence over sampled schedules, with every lock grant a simulator decision"),
  "C04": ("exploration", "3 C04", "full-stack deterministic simulation: seeded return orders over invocation sequences, step-stamped barrier and fan-out oracle",
          "seeded search over subscription sets, return orders and stalls across 2-6 consecutive invocations; the oracle compares every INVOKE event with the runtime's view and the completion step with the last return to next; sampled, not exhaustive"),
+
+ "C05": ("exploration", "3 C05", "full-stack deterministic simulation on the fake clock: stall-phase matrix, response-vs-expiry offset sweep, lock-site holds; bound/teardown/recovery oracle",
+         "seeded search over the phase in which a party stalls past the timeout, exact nanosecond offsets of the response and the re-polls around expiry, and goroutines held at reset/failure-path lock sites; decides outcome exclusivity, the answer bound on the fake clock, teardown-before-answer and recovery on fresh processes; sampled"),
+ "C06": ("fault_enumeration", "3 C06 and appendix B", "full-stack deterministic simulation: enumerated crash-point x exit-kind x extension matrix, seeded schedules per cell, failure-table oracle",
+         "every cell of the (party x protocol point x exit kind x 0-2 extensions) matrix is executed under many seeded schedules; the oracle is the failure table derived from the property statement (status, body provenance, first fault, teardown, recovery); cells enumerated completely, schedules sampled"),
 }
 
 NA = [
